@@ -892,6 +892,8 @@ func slowest(obls []*Obligation, n int) []map[string]interface{} {
 func labelledContractObligations(prop, tier string) []emitObl {
 	targets := map[string]*regexp.Regexp{
 		"C07": regexp.MustCompile(`parser\.CppGenerator\)\.generateCodeForPacket$`),
+		"C05": regexp.MustCompile(`PacketDslVisitorImpl\)\.VisitMatchPair$`),
+		"C06": regexp.MustCompile(`PacketDslVisitorImpl\)\.(VisitCheckSumFieldDeclaration|VisitFieldDefinitionWithAttribute|VisitFieldDefinition|VisitMatchFieldDeclaration|VisitLengthFieldDeclaration|VisitInerObjectField|metaDataDeclarationToField)$`),
 	}
 	re, ok := targets[prop]
 	if !ok {
@@ -901,7 +903,23 @@ func labelledContractObligations(prop, tier string) []emitObl {
 	e.runInits()
 	spec := &PropSpec{ID: prop, Kinds: []string{"POST", "PRE", "INV", "SAFE"}, FuncMatch: re,
 		// the labelled postconditions and the loop invariants they rest on
-		Own: func(o *Obligation) bool { return strings.Contains(o.Name, prop+":") || o.Kind == "INV" }}
+		Own: func(o *Obligation) bool {
+			if strings.Contains(o.Name, prop+":") {
+				return true
+			}
+			if o.Kind != "INV" {
+				return false
+			}
+			switch prop {
+			case "C07":
+				return true
+			case "C05":
+				return strings.Contains(o.Desc, "istokentext")
+			case "C06":
+				return strings.Contains(o.Desc, "csText")
+			}
+			return false
+		}}
 	res := runProperty(e, spec, tier)
 	var out []emitObl
 	for _, fr := range res.reports {
